@@ -36,6 +36,12 @@ PORT_MAPS = [
 ]
 
 BAD_REQUEST, BAD_TYPE = 1, 1
+def _is_echo_reply(data):
+  return len(data) >= 2 and data[1] == rb.ECHO_REPLY
+
+
+RX_ACTIONS = ("RxNoise", "RxFeatures", "RxBarrier", "RxErr", "RxPortStatus",
+              "RxBarrierReject", "RxEchoFail", "RxEchoFailThen")
 
 # Divergence guard: one step is a few hundred microseconds of POX code; a step
 # that has burnt STEP_LIMIT_S seconds of this process's own CPU time (virtual
@@ -80,6 +86,7 @@ class Adapter(object):
     self.prev_reg = []
     self.last_reg = []
     self.reject = None       # connection whose ConnectionUp listener disconnects it
+    self.pending = {}        # cid -> bytes of "more" messages waiting for their read
     self.nprobe = 0
     self.up_order = []       # connections in the order their ConnectionUp was seen
     self.up_dpid = {}
@@ -175,8 +182,28 @@ class Adapter(object):
                         "p%d" % no) for no in sorted(self.pmap.values())]
 
   def _rx(self, c, data):
-    if not self.env.deliver(c, data):
-      return {"unserved": c}
+    """Hand a message to connection c according to the step's segmentation:
+    "more"  - held back: it will share ONE read with the following message(s);
+    "own"   - delivered now, in one read together with everything held back;
+    "split" - as "own", but that read ends inside this message and a second
+              read brings the rest."""
+    seg = self.seg
+    if seg == "more":
+      self.pending[c] = self.pending.get(c, b"") + data
+      self.buffered = True
+      return None
+    chunk = self.pending.pop(c, b"") + data
+    if seg == "split":
+      # cut inside the last message: in its header, right after it, or mid-body
+      k = [3, 8, len(data) // 2, len(data) - 1][self.n % 4]
+      k = max(1, min(len(data) - 1, k))
+      cut = len(chunk) - len(data) + k
+      parts = [chunk[:cut], chunk[cut:]]
+    else:
+      parts = [chunk]
+    for part in parts:
+      if not self.env.deliver(c, part):
+        return {"unserved": c}
     return None
 
   # -- the actions
@@ -207,6 +234,10 @@ class Adapter(object):
     del self.nev[:]
     del self.cev[:]
     c, d, p, k = args["c"], args["d"], args["p"], args["k"]
+    self.seg = args.get("s", "own")
+    self.buffered = False
+    if self.seg == "own" and a not in RX_ACTIONS and any(self.pending.values()):
+      raise Machinery("step %s while a coalesced read is still open" % a)
     to, ok, err = 0, True, None
     if a == "Accept":
       self.env.accept(c)
@@ -266,14 +297,14 @@ class Adapter(object):
                          "p%d" % no, config=self.n & 1, state=(self.n >> 1) & 1)
       err = self._rx(c, rb.port_status([2, 0, 1][self.n % 3], desc, xid=0))
     elif a == "RxEchoFail":
-      self.env.socks[c].fail_send = True
+      self.env.socks[c].fail_send = _is_echo_reply   # from the echo reply on
       err = self._rx(c, rb.echo_request(b"x", xid=self.n))
     elif a == "RxEchoFailThen":
       if c not in self.barrier:
         err = {"no_barrier_request_sent": c}
       else:
         bx = self.barrier[c]
-        self.env.socks[c].fail_send = True
+        self.env.socks[c].fail_send = _is_echo_reply   # from the echo reply on
         nxt = rb.barrier_reply(bx) if k == "match" else \
             rb.error(BAD_REQUEST, BAD_TYPE, rb.barrier_request(bx), xid=bx)
         err = self._rx(c, rb.echo_request(b"x", xid=self.n) + nxt)   # ONE read
@@ -307,6 +338,9 @@ class Adapter(object):
       sk.fail_send = False         # the write failure is an event of this step
     if err is not None:
       return err
+    if self.buffered:
+      # nothing has reached the controller yet: the spec's placeholder
+      return {"ev": [], "reg": [], "gone": [], "to": 0, "ok": True}
     ev = list(self.nev)
     if ev != self.cev:
       ev = {"nexus": list(self.nev), "connection": list(self.cev)}
